@@ -38,10 +38,14 @@ type inode struct {
 	h        *api.HTTP
 }
 
+// nodeJSON: the node runs with -pre1.0_protobuf=false (legacy JSON encoding of log entries,
+// the log copy and the snapshot's retained messages). Set by a check for the duration of a case.
+var nodeJSON bool
+
 func startNode(dir string, bootstrap bool) (*inode, error) {
 	quiet()
 	*raftDir = dir
-	*useProtobuf = true
+	*useProtobuf = !nodeJSON
 	*canaryCompactionStart = 0
 	n := &inode{dir: dir}
 	var err error
@@ -50,11 +54,11 @@ func startNode(dir string, bootstrap bool) (*inode, error) {
 	if err != nil {
 		return nil, err
 	}
-	n.logStore, err = raftstore.NewLevelDBStore(filepath.Join(dir, "raftlog"), bootstrap, true)
+	n.logStore, err = raftstore.NewLevelDBStore(filepath.Join(dir, "raftlog"), bootstrap, !nodeJSON)
 	if err != nil {
 		return nil, err
 	}
-	ircStore, err = raftstore.NewLevelDBStore(filepath.Join(dir, "irclog"), bootstrap, true)
+	ircStore, err = raftstore.NewLevelDBStore(filepath.Join(dir, "irclog"), bootstrap, !nodeJSON)
 	if err != nil {
 		return nil, err
 	}
@@ -93,7 +97,7 @@ func startNode(dir string, bootstrap bool) (*inode, error) {
 	if err := node.Barrier(10 * time.Second).Error(); err != nil {
 		return nil, fmt.Errorf("barrier: %v", err)
 	}
-	n.h = api.NewHTTP(ircServer, node, ircStore, outputStream, &rafthttp.HTTPTransport{}, *network, nodePassword, dir, "n1", true, 3)
+	n.h = api.NewHTTP(ircServer, node, ircStore, outputStream, &rafthttp.HTTPTransport{}, *network, nodePassword, dir, "n1", !nodeJSON, 3)
 	n.fsm.ReplaceState = n.h.ReplaceState
 	return n, nil
 }
